@@ -649,6 +649,11 @@ func (s *sharedEntryAttributes) String() string {
 func (s *sharedEntryAttributes) addChild(ctx context.Context, e Entry) error {
 	// make sure Entry should not only hold LeafEntries
 	if s.leafVariants.Length() > 0 {
+		// the key levels of a list have no schema and never legitimately hold a value: one gets there
+		// through a path that names the list without its keys
+		if s.schema == nil {
+			return fmt.Errorf("cannot add child to %s since it holds Leafs", s)
+		}
 		// An exception are presence containers
 		_, is_container := s.schema.Schema.(*sdcpb.SchemaElem_Container)
 		if !is_container && !s.schema.GetContainer().IsPresence {
